@@ -41,6 +41,7 @@ ASSUMPTIONS = ["the plain goal run through the driver is the reference for the g
                "whether the last solution reports true or ! is implementation defined (choice points left by indexing)",
                "driver transport"]
 MIN_OUTCOMES = 3
+WORKER_KWARGS = {"horizon": 3.0}
 
 PROGRAM = """
 c40_app([],L,L).
@@ -292,27 +293,31 @@ def explore(w, acc, name, g, infinite, tier, only=None):
                 viol("monotone:complete_then_exceeded", case, b, a)
         if N is not None and l >= N and not complete(a):
             viol("threshold_not_upward_closed", case, "complete", a)
-    # ---- pre-bound R
+    # ---- pre-bound R (for non-terminating goals one limit only: a wrong outcome there is a hang)
+    blimits = [5] if infinite else limits
     for rb in ("foo", "true", "!", EXC):
-        rs = px.run_goals(w, ["g(call_with_inference_limit(%s, %d, %s), 300)" % (g, l, "'!'" if rb == "!" else rb) for l in limits])
-        for l, r in zip(limits, rs):
-            got = plain_answers(r)
+        rs = px.run_goals(w, ["g(call_with_inference_limit(%s, %d, %s), 300)" % (g, l, "'!'" if rb == "!" else rb) for l in blimits])
+        for l, r in zip(blimits, rs):
+            rbn = rb if rb != EXC else "exceeded"
             a = pass1[l]
             if a[0].startswith("abn"):
                 continue
-            # the answers whose R equals the pre-bound value, up to (and including) a terminal event
+            if r.abn:
+                acc.case(False, "boundR:%s:abnormal" % rbn)
+                viol("boundR:%s:abnormal" % rbn, {"kind": "boundR", "L": l, "R": rb}, "terminates", r.abn)
+                continue
+            got = plain_answers(r)
+            # the answers whose R equals the pre-bound value
             want = [s for s, rr in a[1] if rr == rb]
             ok = got[1] == want
-            # a pre-bound true may also match where the free run says ! (and vice versa is impossible)
-            acc.case(False, "boundR:%s:%s" % (rb if rb != EXC else "exceeded", "ok" if ok else "differs"))
+            acc.case(False, "boundR:%s:%s" % (rbn, "ok" if ok else "differs"))
             if not ok:
                 if rb in ("true", "!"):
-                    # true/! is implementation defined for the last solution: accept the other reading
+                    # true/! is implementation defined for the last solution: accept the other reading too
                     alt = [s for s, rr in a[1] if rr in ("true", "!")]
-                    if got[1] == alt[:len(got[1])] and len(got[1]) >= len(want) - 1:
+                    if got[1] == alt[:len(got[1])] and len(want) - 1 <= len(got[1]) <= len(want) + 1 and len(got[1]) <= len(alt):
                         continue
-                viol("boundR:%s:%s" % (rb if rb != EXC else "exceeded",
-                                       "accepted" if len(got[1]) > len(want) else "lost"),
+                viol("boundR:%s:%s" % (rbn, "accepted" if len(got[1]) > len(want) else "lost"),
                      {"kind": "boundR", "L": l, "R": rb}, want, got)
     # ---- nested
     if N is not None and N <= NEST_MAX[tier]:
